@@ -73,8 +73,23 @@ def gen_request(rng, focus=None):
         req, tls = proto.make_request(p, sel, search)
         return {"data": req.decode("latin-1"), "tls": tls, "half_close": half_close,
                 "label": "valid-" + p, "kind": kind}
-    kind, sel = _sel(rng)
+    kind, sel = _sel(rng, focus)
     selb = sel.encode()
+    if focus is not None and rng.random() < 0.35:
+        # another spelling of the same object (these share cache files with the plain spelling)
+        alt = rng.choice([selb + b"/", selb + b"//", selb + b"///", b"/" + selb, selb + b"/.", selb + b"|",
+                          selb + b"?", b"/1" + selb, selb.replace(b"/", b"//", 1)])
+        p2 = rng.choice(["gopher", "gopher", "http", "spartan", "gopher$"])
+        if p2 == "gopher":
+            data = alt + b"\r\n"
+        elif p2 == "gopher$":
+            data = alt + b"\t$\r\n"
+        elif p2 == "http":
+            data = b"GET " + alt + b" HTTP/1.0\r\n\r\n"
+        else:
+            data = b"h " + alt + b" 0\r\n"
+        return {"data": data.decode("latin-1"), "tls": False, "half_close": True,
+                "label": "alt-spelling", "kind": kind}
     forms = []
     # --- Gopher family malformed shapes
     forms += [
